@@ -571,7 +571,7 @@ func c20() []string {
 	cwd0, _ := os.Getwd()
 	defer os.Chdir(cwd0)
 	for pi, proj := range projects {
-		text := "VB := \"one\"\nVA := \"zero\"\n"
+		text := "VB := \"one\"\nVA := \"zero\"\nVC := \"-mod=mod -X a=b\"\n"
 		hasDefault := false
 		for _, t := range proj {
 			if t.doc != "" {
@@ -729,7 +729,7 @@ func c20() []string {
 			case "vars":
 				out, _ := run(func(o *app.Options) { o.Variables = true }, nil)
 				i0, i1 := strings.Index(out, "VA"), strings.Index(out, "VB")
-				if i0 < 0 || i1 < 0 || i0 > i1 || !strings.Contains(out, "zero") || !strings.Contains(out, "one") {
+				if i0 < 0 || i1 < 0 || i0 > i1 || !strings.Contains(out, "zero") || !strings.Contains(out, "one") || !strings.Contains(out, "-mod=mod -X a=b") {
 					fails = append(fails, fmt.Sprintf("%s: --vars output %q", desc, out))
 				}
 			}
